@@ -322,10 +322,26 @@ def _split_parallel(stmts):
                 isinstance(st.targets[0], ast.Tuple) and \
                 isinstance(st.value, ast.Tuple) and \
                 len(st.targets[0].elts) == len(st.value.elts) and \
-                all(isinstance(t, ast.Name) for t in st.targets[0].elts):
-            bound = set(t.id for t in st.targets[0].elts)
+                all(isinstance(t, ast.Name) or (
+                    isinstance(t, ast.Attribute) and
+                    isinstance(t.value, ast.Name))
+                    for t in st.targets[0].elts):
+            # (obj.x, obj.y = e0, e1 as well: plain attribute stores, and
+            # no right-hand side calls anything or reads an attribute of
+            # one of the stored names)
+            elts = st.targets[0].elts
+            bound = set(t.id if isinstance(t, ast.Name) else
+                        '%s.%s' % (t.value.id, t.attr) for t in elts)
+            attrs = set(t.attr for t in elts if isinstance(t, ast.Attribute))
             reads = set(n.id for v in st.value.elts for n in ast.walk(v)
                         if isinstance(n, ast.Name))
+            if attrs:
+                reads -= set(t.value.id for t in elts
+                             if isinstance(t, ast.Attribute))
+                if any(isinstance(n, ast.Call) or (
+                        isinstance(n, ast.Attribute) and n.attr in attrs)
+                       for v in st.value.elts for n in ast.walk(v)):
+                    reads |= bound
             if not (bound & reads) and len(bound) == len(st.targets[0].elts):
                 for tgt, val in zip(st.targets[0].elts, st.value.elts):
                     new = ast.Assign(targets=[tgt], value=val)
@@ -781,8 +797,9 @@ class Inliner(object):
             # own (named booleans read back into the tests they feed)
             key = id(callee.raw)
             if key not in _FOLDED_RAW:
-                _FOLDED_RAW[key] = fold_test_flags(fold_dict_calls(
-                    copy.deepcopy(callee.raw)))
+                _FOLDED_RAW[key] = fold_test_flags(sink_flag_return(
+                    fold_conditional_flag(fold_dict_calls(
+                        copy.deepcopy(callee.raw)))))
             raw = _FOLDED_RAW[key]
         self.counter += 1
         tag = '%s__%d' % (callee.name.strip('_'), self.counter)
@@ -1162,11 +1179,18 @@ class Inliner(object):
                     return node
                 params = [a.arg for a in raw.args.posonlyargs +
                           raw.args.args]
+                receiver = None
                 if params and params[0] in ('self', 'cls') and \
                         isinstance(node.func, ast.Attribute) and \
                         callee.cls is not None:
                     if ast.unparse(node.func.value) != params[0]:
                         return node
+                    # the receiver is the caller's own first parameter,
+                    # never rebound: it means the same object in E
+                    cargs = caller.raw.args.posonlyargs + caller.raw.args.args
+                    if cargs and cargs[0].arg == params[0] and \
+                            params[0] not in _stored_names(caller.raw.body):
+                        receiver = params[0]
                     params = params[1:]
                 bound = dict(zip(params, node.args))
                 for kw in node.keywords:
@@ -1183,7 +1207,8 @@ class Inliner(object):
                 # free names of E other than parameters must mean the same
                 # thing at the call site: module-level names only
                 free = set(n.id for n in ast.walk(expr)
-                           if isinstance(n, ast.Name)) - set(params)
+                           if isinstance(n, ast.Name)) - set(params) - \
+                    set([receiver])
                 if free & inliner.fn_stored:
                     return node
                 from . import norm as N
@@ -1307,6 +1332,28 @@ class Inliner(object):
             # call (``_inline_body``) and spliced by the CFG builder, each
             # ``return E`` of the helper becoming a branch on E
             test = stmt.test
+            if isinstance(test, ast.BoolOp) and isinstance(
+                    test.op, ast.And) and not stmt.orelse:
+                # if A and helper(...): S  ->  if A: if helper(...): S
+                last = test.values[-1]
+                if isinstance(last, ast.UnaryOp) and isinstance(
+                        last.op, ast.Not):
+                    last = last.operand
+                if isinstance(last, ast.Call) and \
+                        not hasattr(last, '_inline_body') and \
+                        self.inlinable(caller, last, stack) is not None:
+                    rest = test.values[:-1]
+                    outer_test = rest[0] if len(rest) == 1 else \
+                        ast.copy_location(ast.BoolOp(op=ast.And(),
+                                                     values=rest), test)
+                    inner = ast.copy_location(ast.If(
+                        test=test.values[-1], body=stmt.body, orelse=[]),
+                        stmt)
+                    outer = ast.copy_location(ast.If(
+                        test=outer_test, body=self.stmt(caller, inner,
+                                                        stack),
+                        orelse=[]), stmt)
+                    return [outer]
             if isinstance(test, ast.UnaryOp) and isinstance(test.op,
                                                             ast.Not):
                 test = test.operand
@@ -1897,6 +1944,209 @@ def fold_dict_calls(fdef):
     return ast.fix_missing_locations(_DictCalls().visit(fdef))
 
 
+def _strictly_bool(expr):
+    if isinstance(expr, ast.UnaryOp) and isinstance(expr.op, ast.Not):
+        return True
+    if isinstance(expr, ast.Compare):
+        return True
+    if isinstance(expr, ast.BoolOp):
+        return all(_strictly_bool(v) for v in expr.values)
+    return isinstance(expr, ast.Constant) and isinstance(expr.value, bool)
+
+
+def fold_conditional_flag(fdef):
+    """x = False ; if A: x = B   ->   x = bool(A and B)
+       x = True  ; if A: x = B   ->   x = bool(not A or B)
+    for B a comparison / negation / and-or of those (so the flag is True or
+    False either way) and x bound nowhere else."""
+    stores = {}
+    for node in ast.walk(fdef):
+        if isinstance(node, ast.Name) and isinstance(node.ctx, ast.Store):
+            stores[node.id] = stores.get(node.id, 0) + 1
+
+    def rewrite(block):
+        out = []
+        idx = 0
+        while idx < len(block):
+            st = block[idx]
+            nxt = block[idx + 1] if idx + 1 < len(block) else None
+            if isinstance(st, ast.Assign) and len(st.targets) == 1 and \
+                    isinstance(st.targets[0], ast.Name) and \
+                    isinstance(st.value, ast.Constant) and \
+                    isinstance(st.value.value, bool) and \
+                    stores.get(st.targets[0].id) == 2 and \
+                    isinstance(nxt, ast.If) and not nxt.orelse and \
+                    not hasattr(nxt.test, '_inline_body') and \
+                    len(nxt.body) == 1 and \
+                    isinstance(nxt.body[0], ast.Assign) and \
+                    len(nxt.body[0].targets) == 1 and \
+                    isinstance(nxt.body[0].targets[0], ast.Name) and \
+                    nxt.body[0].targets[0].id == st.targets[0].id and \
+                    _strictly_bool(nxt.body[0].value) and \
+                    not any(isinstance(n, ast.Name) and
+                            n.id == st.targets[0].id
+                            for n in ast.walk(nxt.test)) and \
+                    not any(isinstance(n, ast.Name) and
+                            n.id == st.targets[0].id
+                            for n in ast.walk(nxt.body[0].value)):
+                cond, val = nxt.test, nxt.body[0].value
+                if st.value.value:
+                    expr = ast.BoolOp(op=ast.Or(), values=[
+                        ast.UnaryOp(op=ast.Not(), operand=cond), val])
+                else:
+                    expr = ast.BoolOp(op=ast.And(), values=[cond, val])
+                new = ast.copy_location(ast.Assign(
+                    targets=[st.targets[0]],
+                    value=ast.Call(func=ast.Name(id='bool', ctx=ast.Load()),
+                                   args=[expr], keywords=[])), nxt.body[0])
+                ast.fix_missing_locations(new)
+                out.append(new)
+                idx += 2
+                continue
+            # x = E ; if not x: x = F  ->  x = E or F   (if x: -> E and F)
+            if isinstance(st, ast.Assign) and len(st.targets) == 1 and \
+                    isinstance(st.targets[0], ast.Name) and \
+                    stores.get(st.targets[0].id) == 2 and \
+                    isinstance(nxt, ast.If) and not nxt.orelse and \
+                    len(nxt.body) == 1 and \
+                    isinstance(nxt.body[0], ast.Assign) and \
+                    len(nxt.body[0].targets) == 1 and \
+                    isinstance(nxt.body[0].targets[0], ast.Name) and \
+                    nxt.body[0].targets[0].id == st.targets[0].id and \
+                    not any(isinstance(n, ast.Name) and
+                            n.id == st.targets[0].id
+                            for n in ast.walk(nxt.body[0].value)):
+                name = st.targets[0].id
+                test = nxt.test
+                neg = isinstance(test, ast.UnaryOp) and \
+                    isinstance(test.op, ast.Not)
+                plain = test.operand if neg else test
+                if isinstance(plain, ast.Name) and plain.id == name:
+                    expr = ast.BoolOp(op=ast.Or() if neg else ast.And(),
+                                      values=[st.value, nxt.body[0].value])
+                    new = ast.copy_location(ast.Assign(
+                        targets=[st.targets[0]], value=expr), st)
+                    ast.fix_missing_locations(new)
+                    out.append(new)
+                    idx += 2
+                    continue
+                # x = E ; if not x and G: x = F  ->  x = bool(E or (G and F))
+                # for E, F that are True or False
+                if isinstance(test, ast.BoolOp) and \
+                        isinstance(test.op, ast.And) and \
+                        isinstance(test.values[0], ast.UnaryOp) and \
+                        isinstance(test.values[0].op, ast.Not) and \
+                        isinstance(test.values[0].operand, ast.Name) and \
+                        test.values[0].operand.id == name and \
+                        _strictly_bool(st.value) and \
+                        _strictly_bool(nxt.body[0].value) and \
+                        not any(isinstance(n, ast.Name) and n.id == name
+                                for v in test.values[1:]
+                                for n in ast.walk(v)):
+                    rest = test.values[1:]
+                    guard = rest[0] if len(rest) == 1 else ast.BoolOp(
+                        op=ast.And(), values=rest)
+                    expr = ast.BoolOp(op=ast.Or(), values=[
+                        st.value, ast.BoolOp(op=ast.And(), values=[
+                            guard, nxt.body[0].value])])
+                    new = ast.copy_location(ast.Assign(
+                        targets=[st.targets[0]],
+                        value=ast.Call(func=ast.Name(id='bool',
+                                                     ctx=ast.Load()),
+                                       args=[expr], keywords=[])), st)
+                    ast.fix_missing_locations(new)
+                    out.append(new)
+                    idx += 2
+                    continue
+            for field in ('body', 'orelse', 'finalbody'):
+                sub = getattr(st, field, None)
+                if isinstance(sub, list) and sub and \
+                        isinstance(sub[0], ast.stmt) and \
+                        not isinstance(st, (ast.FunctionDef,
+                                            ast.AsyncFunctionDef,
+                                            ast.ClassDef)):
+                    setattr(st, field, rewrite(sub))
+            for hdl in getattr(st, 'handlers', None) or ():
+                hdl.body = rewrite(hdl.body)
+            out.append(st)
+            idx += 1
+        return out
+    fdef.body = rewrite(fdef.body)
+    return fdef
+
+
+def sink_flag_return(fdef):
+    """x = E ; if [not] x: A [else: B] ; return x   ->
+    if [not] E: A ; return <bool>  else: B ; return <bool>
+    for a named boolean (E is a comparison / negation / and-or of those, so
+    its value is True or False) that is bound once and read only by the
+    test and the return."""
+    loads, stores = {}, {}
+    for node in ast.walk(fdef):
+        if isinstance(node, ast.Name):
+            book = loads if isinstance(node.ctx, ast.Load) else stores
+            book[node.id] = book.get(node.id, 0) + 1
+
+    def rewrite(block):
+        out = []
+        idx = 0
+        while idx < len(block):
+            st = block[idx]
+            if idx + 2 < len(block) and isinstance(st, ast.Assign) and \
+                    len(st.targets) == 1 and \
+                    isinstance(st.targets[0], ast.Name) and \
+                    _strictly_bool(st.value) and \
+                    stores.get(st.targets[0].id) == 1 and \
+                    loads.get(st.targets[0].id) == 2 and \
+                    isinstance(block[idx + 1], ast.If) and \
+                    isinstance(block[idx + 2], ast.Return) and \
+                    isinstance(block[idx + 2].value, ast.Name) and \
+                    block[idx + 2].value.id == st.targets[0].id:
+                name = st.targets[0].id
+                cond = block[idx + 1]
+                test = cond.test
+                neg = isinstance(test, ast.UnaryOp) and \
+                    isinstance(test.op, ast.Not)
+                plain = test.operand if neg else test
+                if isinstance(plain, ast.Name) and plain.id == name:
+                    value = st.value
+                    if neg and isinstance(value, ast.UnaryOp) and \
+                            isinstance(value.op, ast.Not):
+                        new_test = value.operand        # not not E
+                    elif neg:
+                        new_test = ast.UnaryOp(op=ast.Not(), operand=value)
+                    else:
+                        new_test = value
+                    ret = block[idx + 2]
+
+                    def const(flag):
+                        return ast.copy_location(ast.Return(
+                            value=ast.Constant(value=flag)), ret)
+                    new = ast.copy_location(ast.If(
+                        test=ast.copy_location(new_test, test),
+                        body=rewrite(cond.body) + [const(not neg)],
+                        orelse=rewrite(cond.orelse) + [const(neg)]), cond)
+                    ast.fix_missing_locations(new)
+                    out.append(new)
+                    idx += 3
+                    continue
+            for field in ('body', 'orelse', 'finalbody'):
+                sub = getattr(st, field, None)
+                if isinstance(sub, list) and sub and \
+                        isinstance(sub[0], ast.stmt) and \
+                        not isinstance(st, (ast.FunctionDef,
+                                            ast.AsyncFunctionDef,
+                                            ast.ClassDef)):
+                    setattr(st, field, rewrite(sub))
+            for hdl in getattr(st, 'handlers', None) or ():
+                hdl.body = rewrite(hdl.body)
+            out.append(st)
+            idx += 1
+        return out
+    fdef.body = rewrite(fdef.body)
+    return fdef
+
+
 def fold_test_flags(fdef):
     """x = E ; if <test mentioning x>: ...   ->   if <test with E>: ...
     for a local bound right before the `if` that tests it (a named boolean,
@@ -1995,8 +2245,8 @@ def inline_function(index, func, resolver):
     """Deep copy of func.raw with private helpers inlined; returns
     (new FunctionDef, [inlined callee names])."""
     inl = Inliner(index, resolver)
-    node = sink_result_variable(fold_test_flags(fold_dict_calls(
-        copy.deepcopy(func.raw))))
+    node = sink_result_variable(fold_test_flags(sink_flag_return(
+        fold_conditional_flag(fold_dict_calls(copy.deepcopy(func.raw))))))
     inl.fn_stored = (_stored_names(func.raw.body) -
                      _comprehension_vars(func.raw.body)) | set(
                          a.arg for a in func.raw.args.args)
